@@ -644,6 +644,8 @@ def run(ctx, rep):
     sentinel_rules(facts, rep)
     fieldwriters_rules(facts, rep)
     dosmode_rules(facts, rep)
+    from rules.shared_extrawalk import extrawalk_rules
+    extrawalk_rules(facts, rep)        # C03-EXTRAWALK: every record of the extra field is found, whatever precedes it
     from rules.C19 import table_rules as cp437_table_rules
     cp437_table_rules(facts, rep)      # reported as C03/C19-TABLE
     from rules.C10 import extra_tolerance_rules
